@@ -13,7 +13,7 @@ from mc.canon import short
 
 ID = 'C16'
 LEVEL = 'model_checking'
-RULE = ('E2 explicit-state exploration of library state: events (48: '
+RULE = ('E2 explicit-state exploration of library state: events (50: '
         'construct with defaults, marshal, unmarshal valid, unmarshal '
         'invalid, failing constructions, the 3 toggles, a change of the '
         'caller\'s decimal context, call-then-mutate-the-result composites) applied to a freshly imported pamqp; state = '
